@@ -36,8 +36,10 @@ def run_trace(job):
 
     def main(s):
         import secsgem.common
-        dt = secsgem.common.DeviceType.EQUIPMENT if role == "equipment" else secsgem.common.DeviceType.HOST
-        ep = hsmsrun.Ep(mode=mode, kind=role, device_type=dt, settings={"establish_communication_timeout": D})
+        dt = secsgem.common.DeviceType.EQUIPMENT if role.startswith("equipment") else secsgem.common.DeviceType.HOST
+        extra = {"initial_control_state": "ONLINE"} if role == "equipment_online" else {}
+        ep = hsmsrun.Ep(mode=mode, kind="equipment" if role.startswith("equipment") else "host", device_type=dt,
+                        settings={"establish_communication_timeout": D}, **extra)
         h = ep.handler
         t3 = h.settings.timeouts.t3
         cbs = []
@@ -46,7 +48,7 @@ def run_trace(job):
         h.events.handler_communicating += lambda d: comm.append(1)
         fact = {"en": False, "link": "down"}
         last13 = [None]
-        peer_is_host = role == "equipment"
+        peer_is_host = role.startswith("equipment")
 
         def data_frames(inbound_sys):
             out = []
@@ -101,7 +103,10 @@ def run_trace(job):
                 ep.link.peer_close()
                 ok, why = s.run_until(lambda: ep.link.closed_count > n0, max_dt=5)
                 if not ok:
-                    raise Machinery(f"close did not finish in C07 run: {why}")
+                    # the handler's reaction to the link loss does not finish (it must leave COMMUNICATING and return)
+                    rec["link_loss_stuck"] = {"why": why, "cm": h.communication_state.current.name,
+                                              "blocked": [b["thread"] + ":" + "/".join(b["stack"][-3:]) for b in s.blocked_report()][:6]}
+                    return
                 fact["link"] = "down"
             elif k == "Timer":
                 nd = s.next_deadline()
@@ -170,7 +175,7 @@ def run(ctx: Ctx):
     paths = g.edge_cover() + g.random_walks(40 if ctx.quick else 500, 35, rng)
     jobs = []
     tid = 0
-    for role in ("host", "equipment"):
+    for role in ("host", "equipment", "equipment_online"):
         for mode in ("passive", "active"):
             for pi, p in enumerate(paths):
                 if mode == "active" and pi % 3:
@@ -184,7 +189,12 @@ def run(ctx: Ctx):
             raise Machinery(str(t["errors"]))
         ctx.violation({"check": "e30comm", "clause": "run-did-not-finish", "role": t["role"],
                        "what": f"run ended {t['outcome']} {t.get('errors')}", "steps": t["steps"][-6:], "wedge": t.get("wedge")})
-    traces = [t for t in traces if t["outcome"] == "done" and not t.get("errors")]
+    for t in [t for t in traces if t.get("link_loss_stuck")][:5]:
+        ctx.violation({"check": "e30comm", "clause": "link-loss-handling-did-not-finish", "role": t["role"], "mode": t["mode"],
+                       "detail": t["link_loss_stuck"], "inputs": [s_["inp"] for s_ in t["steps"]][-6:],
+                       "what": f"{t['role']}: after the link was lost the handler did not finish its disconnect handling "
+                               f"(communication state {t['link_loss_stuck']['cm']}): {t['link_loss_stuck']['blocked'][:2]}"})
+    traces = [t for t in traces if t["outcome"] == "done" and not t.get("errors") and not t.get("link_loss_stuck")]
     f = wd / "traces.json"
     f.write_text(json.dumps([{"id": t["id"], "steps": [{"inp": st["inp"], "obs": st["obs"]} for st in t["steps"]]} for t in traces]))
     rj = tlc.run("E30CommJudge", cfg_text="", workdir=wd, workers=1, env={"TRACE_FILE": str(f)}, what="judge", coverage=False,
